@@ -510,7 +510,10 @@ class Bus (objects.DBusObject):
                         kwargs['args'] = []
                     kwargs['args'].append((int(k[3:]), value))
 
-        self.router.addMatch(caller.sendMessage, **kwargs)
+        # remembered so that clientDisconnected removes the rule
+        caller.matchRules.add(
+            self.router.addMatch(caller.sendMessage, **kwargs)
+        )
 
     def dbus_GetNameOwner(self, busName):
         if busName.startswith(':'):
